@@ -3,5 +3,5 @@ From PV Require Import Base.IO PTG.PTGDefs.
 Extraction Language OCaml.
 (* coqc runs from coq/ (coq_makefile), so the path is relative to it *)
 Extraction "extracted/ptg.ml" io_witness eval instances instances_of params_of complete preds succs
-  pred_edges succ_edges wf_program topo_order make_key make_keyZ decode key_print params_in_local_order
+  pred_edges succ_edges wf_program wf_first_match topo_order make_key make_keyZ decode key_print params_in_local_order
   minmax_at.
